@@ -638,7 +638,7 @@ def gate_cases(rng, tier):
                     continue
                 for alpha in (None, 0.4, "#", "#a0b0c0"):
                     for small in (True, False):
-                        for jpeg in ((None, -50, -2, -1, 0, 50, 95) if tier == "thorough" else (rng.choice([None, -50, -2, -1, 0, 50, 95]),)):
+                        for jpeg in ((None, -2, -1, 0, 50) if tier == "thorough" else (rng.choice([None, -50, -2, -1, 0, 50, 95]),)):
                             for method in (("whole", "anim", "lines") if tier == "thorough" else ("whole", rng.choice(["whole", "anim", "lines"]))):
                                 cell = rng.choice(CELLS)
                                 rw, rh = rng.randrange(1, 6), rng.randrange(1, 5)
